@@ -71,7 +71,16 @@ class _Opaque(Ty):
         return z3.IntSort()
 
 
-Int, Bool, Str, Real, NoneT, Opaque = _Int(), _Bool(), _Str(), _Real(), _None(), _Opaque()
+class _Atom(Ty):
+    """An object of which only its identity matters (parametric code: list elements that are merely moved around).  Integers
+    may be stored where atoms are expected (they are objects too)."""
+    key = 'atom'
+
+    def sort(self):
+        return z3.IntSort()
+
+
+Int, Bool, Str, Real, NoneT, Opaque, Atom = _Int(), _Bool(), _Str(), _Real(), _None(), _Opaque(), _Atom()
 
 
 class Ref(Ty):
@@ -282,7 +291,7 @@ def parse_type(s, classes=None):
     if s.endswith('?'):
         opt = True
         s = s[:-1].strip()
-    base = {'int': Int, 'str': Str, 'bool': Bool, 'real': Real, 'float': Real, 'none': NoneT, 'opaque': Opaque}
+    base = {'int': Int, 'str': Str, 'bool': Bool, 'real': Real, 'float': Real, 'none': NoneT, 'opaque': Opaque, 'atom': Atom}
     if s in base:
         t = base[s]
     elif '[' in s:
